@@ -16,7 +16,7 @@ impl Property for C04 {
     const ISOLATE: bool = false;
     fn plan(tier: Tier) -> Plan {
         match tier {
-            Tier::Quick => Plan { shards: 16, cases_per_shard: 5000, max_shrink_iters: 600 },
+            Tier::Quick => Plan { shards: 16, cases_per_shard: 3000, max_shrink_iters: 600 },
             Tier::Thorough => Plan { shards: 16, cases_per_shard: 125_000, max_shrink_iters: 2000 },
         }
     }
